@@ -91,7 +91,8 @@ def c_dispatch(t_reg: bool, u_reg: bool, d_reg: bool, style: int, ri: int, pos: 
     types' unknown handlers (decoys) registered or not; handlers in parameter style 0..3 (none / payload / annotated
     composite metadata / both).  Request of type RT with route in {a, b, unregistered}, the route entry first /
     middle / last in the composite metadata (optionally with a second tag), an authentication entry and a verifier
-    as in AUTH, a filler entry with symbolic content.  Oracle = reference dispatch: exactly the right handler ran
+    as in AUTH, a filler entry with symbolic content; a second, fully populated RequestRouter exists in the process but is
+    not installed on this server.  Oracle = reference dispatch: exactly the right handler ran
     exactly once with the right arguments, the requester sees its value, or an error on that request alone; with a
     verifier configured NO handler of any type runs unless an authentication entry is present and accepted.
 
@@ -110,6 +111,10 @@ def c_dispatch(t_reg: bool, u_reg: bool, d_reg: bool, style: int, ri: int, pos: 
     target_route = req_route if req_route in ROUTES else 'a'
     log = []
     verified = []
+    # another route table living in the same process (e.g. the client side's own router): fully populated, never
+    # installed on this server - none of its handlers may ever run for this server's requests
+    foreign_log = []
+    _make_router(foreign_log, True, True, True, style, RT, target_route)
     router = _make_router(log, t_reg and req_route in ROUTES, u_reg, d_reg, style, RT, target_route)
 
     async def verifier(route_name, authentication):
@@ -177,6 +182,8 @@ def c_dispatch(t_reg: bool, u_reg: bool, d_reg: bool, style: int, ri: int, pos: 
         else:
             want = None
         ran = [x[0] for x in log]
+        if foreign_log:
+            devs.append('C19:handler-of-another-route-table-ran:' + foreign_log[0][0])
         stats.note(True, {'rt': RT, 'auth': list(AUTH), 'want': want, 'style': style, 'route': req_route, 'pos': pos})
         if not gate_open and ran:
             devs.append('C19:authentication-gate-bypassed:handler-ran-without-accepted-authentication')
